@@ -53,6 +53,10 @@ def main():
         for trio in ((["int", "3", "1"], ["float", "3", "1"], ["dec", "3", "1"]), (["dec", "1000", "1"], ["int", "1000", "1"], ["float", "1000", "1"]),
                      (["float", "0", "1"], ["int", "0", "1"], ["dec", "0", "1"]), (["dec", "5", "2"], ["float", "5", "2"])):
             for m in trio: seqs.append({"m": m, "u": [[None, un, 1]]})
+    # Decimal magnitudes with more digits than the decimal context's 28 (sqrt 2, e, 0.123...), on sub-multiple prefixes whose factor is a float
+    for lit in ("1.41421356237309504880168872420969808", "2.71828182845904523536028747135266250", "0.123456789012345678901234567890123456", "1234567890.12345678901234567890123456789"):
+        for us in ([["milli", "meter", 1]], [["kilo", "second", -1]], [["nano", "meter", 1], [None, "second", -1]], [[None, "meter", 1]], [["micro", "gram", 1]]):
+            seqs.append({"m": ["decs", lit], "u": us})
     quantities = seqs + quantities
     extra_prefixes = [[a, b, op] for a in ("kilo", "mebi", "milli", "kibi") for b in ("kibi", "mega", "kilo", "pebi") for op in ("mul", "div") if (a in prefixes and b in prefixes)] + [[10, 7], [2, 5], [10, -5], [7, 3], [1, 3], [1, -2]]
     # units under anonymous prefixes, including prefixes of value 1 that are not the identity prefix (base 1)
